@@ -61,6 +61,29 @@ func execRealOnce(sc RealScenario) *evid.Failure {
 			mu.Lock()
 			handled = append(handled, hlog{w.Conn().RemoteAddr().String(), string(b)})
 			mu.Unlock()
+			if path, _ := rq.Path(); path == "/ask-con" || path == "/ask-non" {
+				// the handler asks the peer something on the peer's own connection before it answers
+				// (confirmable or non-confirmable): the server goes on serving meanwhile
+				ctx, cancel := context.WithTimeout(context.Background(), 4*time.Second)
+				defer cancel()
+				q, err := w.Conn().NewGetRequest(ctx, "/q")
+				if err == nil {
+					if path == "/ask-non" {
+						q.SetType(message.NonConfirmable)
+					}
+					var resp *pool.Message
+					if resp, err = w.Conn().Do(q); err == nil {
+						qb, _ := resp.ReadBody()
+						if string(qb) != "q" {
+							err = fmt.Errorf("the peer answered %q", qb)
+						}
+					}
+				}
+				if err != nil {
+					_ = w.SetResponse(codes.InternalServerError, message.TextPlain, bytes.NewReader([]byte("the handler's own request to the peer failed: "+err.Error())))
+					return
+				}
+			}
 			_ = w.SetResponse(codes.Changed, message.TextPlain, bytes.NewReader(append([]byte("echo:"), b...)))
 		})),
 		options.WithOnNewConn(func(cc *udpClient.Conn) {
@@ -94,7 +117,12 @@ func execRealOnce(sc RealScenario) *evid.Failure {
 	good := make([]*udpClient.Conn, sc.Good)
 	sent := make([][]string, sc.Good)
 	for i := range good {
-		c, err := udp.Dial(addr, options.WithMessagePool(pool.New(8, 2048)))
+		c, err := udp.Dial(addr, options.WithMessagePool(pool.New(8, 2048)),
+			options.WithHandlerFunc(udpClient.HandlerFunc(func(w *responsewriter.ResponseWriter[*udpClient.Conn], rq *pool.Message) {
+				if rq.Code() == codes.GET {
+					_ = w.SetResponse(codes.Content, message.TextPlain, bytes.NewReader([]byte("q")))
+				}
+			})))
 		if err != nil {
 			return evid.Failf("real/dial", sc, "udp.Dial: %v", err)
 		}
@@ -112,13 +140,21 @@ func execRealOnce(sc RealScenario) *evid.Failure {
 	}
 	for _, st := range sc.Steps {
 		switch st.Kind {
-		case "req":
+		case "req", "ask-con", "ask-non":
 			c := st.Actor % sc.Good
 			body := fmt.Sprintf("c%d#%d", c, len(sent[c]))
 			sent[c] = append(sent[c], body)
 			ctx, cancel := context.WithTimeout(context.Background(), 8*time.Second)
-			resp, err := good[c].Post(ctx, "/echo", message.TextPlain, bytes.NewReader([]byte(body)))
+			path := "/echo"
+			if st.Kind != "req" {
+				path = "/" + st.Kind
+			}
+			resp, err := good[c].Post(ctx, path, message.TextPlain, bytes.NewReader([]byte(body)))
 			cancel()
+			if err == nil && resp.Code() == codes.InternalServerError {
+				b, _ := resp.ReadBody()
+				err = fmt.Errorf("%s", b)
+			}
 			if err != nil {
 				mu.Lock()
 				defer mu.Unlock()
@@ -326,8 +362,8 @@ func genReal(t *rapid.T) RealScenario {
 	sc.SameToken = sc.TwoAtOnce && sc.Responders > 0 && rapid.IntRange(0, 2).Draw(t, "sametoken") == 0
 	n := rapid.IntRange(2, 12).Draw(t, "nsteps")
 	for i := 0; i < n; i++ {
-		st := Step{Kind: rapid.SampledFrom([]string{"req", "req", "bytes", "bytes", "bytes"}).Draw(t, "kind")}
-		if st.Kind == "req" {
+		st := Step{Kind: rapid.SampledFrom([]string{"req", "req", "ask-con", "ask-non", "bytes", "bytes", "bytes"}).Draw(t, "kind")}
+		if st.Kind != "bytes" {
 			st.Actor = rapid.IntRange(0, sc.Good-1).Draw(t, "who")
 		} else {
 			st.Actor = rapid.IntRange(0, sc.Bad-1).Draw(t, "who")
